@@ -81,6 +81,7 @@ type Ctx struct {
 	undecided []string
 	trusted   map[string]bool // assumptions / trusted callees used
 	inlined   map[string]bool
+	usedContracts map[string]bool
 	allocSite map[ssa.Instruction]int
 	seenSentinels []string
 }
@@ -190,7 +191,7 @@ func fieldPath(t types.Type, name string) ([]int, bool) {
 }
 
 func (c *Ctx) loadField(st *State, ref Term, fi fieldInfo) Term {
-	if _, isStruct := fi.GoT.Underlying().(*types.Struct); isStruct {
+	if isRepoStruct(fi.GoT) {
 		// embedded value struct: its identity is a sub-object reference
 		t := mk(SInt, "(sub %s %d)", ref.S, c.V.typeID(fi.Key))
 		t.GoT = types.NewPointer(fi.GoT)
